@@ -30,7 +30,10 @@ _real()
 
 
 def _world(m, kind, w, h, d, wrap):
-    if kind == 'space':
+    if kind == 'space' and hx.P.get('positional_ctor'):
+        # the documented parameter order, passed positionally: (model, width, height, depth, id, wrap_env)
+        env = SpaceWorld(m, w, h, d, 'pond', wrap)
+    elif kind == 'space':
         env = SpaceWorld(m, w, h, d, wrap_env=wrap)
     elif kind == 'gridlike':
         env = SpaceWorld(m, w, h, d, wrap_env=wrap)
@@ -91,6 +94,10 @@ def move_int(w: int, h: int, d: int, x: int, y: int, z: int, dx: int, dy: int, d
     """
     hx.begin()
     kind, wrap = hx.P['world'], hx.P['wrap']
+    if 'concrete' in hx.P:
+        # start and first step fixed by the partition (plain Python numbers all the way: library calls that hand back
+        # values of another numeric type, e.g. numpy scalars, behave differently on symbolic proxies)
+        x, y, z, dx, dy, dz = hx.P['concrete']
     m = Model(logger=NULL_LOGGER)
     env = _world(m, kind, w, h, d, wrap)
     off = _offset(env, kind)
@@ -102,10 +109,11 @@ def move_int(w: int, h: int, d: int, x: int, y: int, z: int, dx: int, dy: int, d
     env.move(a, dx, dy, dz)
     p = a[PositionComponent]
     ww, hh, dd = env.width, env.height, env.depth
-    ex = _axis_after_move(ww, off, env.wrap_env, x, dx)
-    ey = _axis_after_move(hh, off, env.wrap_env, y, dy)
-    ez = _axis_after_move(dd, off, env.wrap_env, z, dz)
-    if not env.wrap_env and (ww == 0 or hh == 0 or dd == 0):
+    wraps = wrap                   # (what the world was BUILT as - by the partition - not read back from the object)
+    ex = _axis_after_move(ww, off, wraps, x, dx)
+    ey = _axis_after_move(hh, off, wraps, y, dy)
+    ez = _axis_after_move(dd, off, wraps, z, dz)
+    if not wraps and (ww == 0 or hh == 0 or dd == 0):
         # zero-extent axis in a clamping world: the coordinate is not constrained by I8; the property only fixes
         # positive-extent axes.  (The code sends it to 0.)
         if ww == 0:
@@ -120,11 +128,20 @@ def move_int(w: int, h: int, d: int, x: int, y: int, z: int, dx: int, dy: int, d
         hx.reach('stays_in_range')
     if p.x != ex or p.y != ey or p.z != ez:
         return hx.end(hx.fail("position after move", got=(p.x, p.y, p.z), exp=(ex, ey, ez), old=(x, y, z), delta=(dx, dy, dz),
-                              extents=(ww, hh, dd), wrap=env.wrap_env, offset=off))
+                              extents=(ww, hh, dd), wrap=wraps, offset=off))
     if not _inside(env, off, p.x, p.y, p.z):
         return hx.end(hx.fail("agent left the world", pos=(p.x, p.y, p.z), extents=(ww, hh, dd)))
     if b[PositionComponent].xyz() != bpos:
         return hx.end(hx.fail("moving one agent moved another"))
+    # a SECOND move, by a step far beyond any machine word: coordinates stay exact integers whatever happened before
+    huge = 2 ** 63 - 1
+    x_now, y_now = ex, ey             # (the oracle's own numbers, not read back from the component)
+    env.move(a, huge, -huge, 0)
+    ex2 = _axis_after_move(ww, off, wraps, x_now, huge)
+    ey2 = _axis_after_move(hh, off, wraps, y_now, -huge)
+    if (ww > 0 or wraps) and p.x != ex2 or (hh > 0 or wraps) and p.y != ey2:
+        return hx.end(hx.fail("position after a second, very large move", got=(p.x, p.y), exp=(ex2, ey2), before=(x_now, y_now),
+                              extents=(ww, hh, dd), wrap=wraps))
     return hx.end(True)
 
 
@@ -362,7 +379,9 @@ def obligations(tier):
         real = [("line_wrap", True), ("grid", False), ("discrete_flat", False), ("discrete_nox", False), ("discrete_nox_wrap", True)]
     k = 3 if tier == "quick" else 4
     obs = [
-        X("move_int", move_int, parts=[{"world": w, "wrap": wr} for w, wr in sym + real] + [{"world": "space", "wrap": False, "position_subclass": True}],
+        X("move_int", move_int, parts=[{"world": w, "wrap": wr} for w, wr in sym + real] + [{"world": "space", "wrap": False, "position_subclass": True}] +
+          [{"world": "space", "wrap": wr, "positional_ctor": True} for wr in (False, True)] +
+          [{"world": "grid", "wrap": False, "concrete": [1, 1, 0, 1, 0, 0]}, {"world": "line_wrap", "wrap": True, "concrete": [1, 0, 0, 2, 0, 0]}],
           labels=("leaves_range", "stays_in_range"),
           timeout=1200, encoded=enc, bounds={"extents,position,delta": "all ints"}),
         X("move_to_int", move_to_int, parts=[{"world": w} for w in ["space", "gridlike"] + [r for r, wr in real if not wr]] +
